@@ -58,11 +58,34 @@ def mk_ser(ctx, file_mode, dump=None):
          SF('currentID'): FreshInt('currentID'), SF('transmissions'): ctx.alloc(KVDict([])),
          SF('incomingTransmissionFile'): None, SF('inMemorySerializedData'): (None if file_mode else data),
          SF('serializer'): None, SF('deserializer'): None, SF('serializeChecker'): None}
-    ser = ctx.alloc(PObj('Serializer', f))
+    # the object is created by the real constructor (whatever it establishes beyond the fields below - e.g. an attribute added by a change - is
+    # in place), then put into the symbolic state of the contract
+    try:
+        ser, _B = mk_ser_real(ctx, file_mode, False)
+        c_ = ctx.cell(ser)
+        for k_, v_ in f.items():
+            c_ = c_.with_field(k_, v_)
+        ctx.setcell(ser, c_)
+    except (Undecided, PyExc, KeyError, AttributeError, TypeError):
+        ser = ctx.alloc(PObj('Serializer', f))     # the constructor left the subset: fall back to the fields the contract names
     ctx.track('batchSize', B)
     ctx.track('pid', pid)
     ctx.track('len(dump)', data.n)
     return ser, data, B, pid
+
+
+def mk_ser_real(ctx, file_mode, use_fork=False):
+    """a Serializer built by the real __init__ (so that whatever the constructor establishes - including attributes a hand-built pre-state cannot know -
+    is in place), with the configuration of mk_ser"""
+    mod = source.load(SMOD)
+    fn, ci = mod.find('Serializer.__init__')
+    ser = ctx.alloc(PObj('Serializer', {}))
+    B = FreshInt('batchSize')
+    ctx.assume(B >= 1)
+    I = Interp(ctx, externals={'hasattr': lambda I_, a, k: True})
+    I.cur_mod = mod
+    I.call_funcdef(fn, mod, 'Serializer', ser, ['dump.bin' if file_mode else None, B, use_fork, None, None, None], {}, None, 'Serializer.__init__')
+    return ser, B
 
 
 def ext_open(ctx, files):
@@ -604,18 +627,16 @@ def ser_scratch_files(ctx):
 
     def gz(I, args, kw):
         return I.ctx.alloc(GzCtx(kw.get('fileobj')))
-    # own dump (file mode, no fork)
-    ser, data, B, pid = mk_ser(ctx, True)
-    ctx.setcell(ser, ctx.cell(ser).with_field(SF('useFork'), False))
-    ctx.assume(pid == 0)
+    # own dump (file mode, no fork), on an object built by the real constructor
+    ser, B = mk_ser_real(ctx, True, False)
     mod = source.load(SMOD)
     ext = {'open': opener('serialize'), 'atomicReplace': lambda I, a, k: None, 'atomic_replace.atomicReplace': lambda I, a, k: None,
            'gzip.GzipFile': gz, 'pickle.dump': lambda I, a, k: None}
     I = Interp(ctx, externals=ext)
     fn, ci = mod.find('Serializer.serialize')
     I.call_funcdef(fn, mod, 'Serializer', ser, [('state', 'e1', 'e0', 'cluster'), 5], {}, None, 'Serializer.serialize')
-    # incoming first chunk on the same object
-    ser2, data2, B2, pid2 = mk_ser(ctx, True)
+    # incoming first chunk on an object built the same way
+    ser2, B2 = mk_ser_real(ctx, True, False)
     ext2 = dict(ext)
     ext2['open'] = opener('incoming')
     ext2['pickle.to_bytes'] = lambda I, a, k: a[0]
